@@ -31,6 +31,43 @@ theorem returned_call_removed (s : St) (hr : Reachable s) (c : Nat) (o : Out)
   have h1 := (pending_exact s hr q c).mp hq
   simp [h, inTable] at h1
 
+/-- **A call whose argument cannot be compressed is removed as well.**
+    `dispatch.Call` returns the `compressData` error with `RemoveCall` — and
+    nothing else — deferred (`cCompressFail`, after `AddCall`).  At that point
+    the call is still in the table; the only step that moves the caller on is
+    its deferred `RemoveCall` (`cRm`), which is enabled whatever the rest of the
+    endpoint does, returns the compression error and leaves no entry for the
+    call: neither under its own seqno nor anywhere else in the table (so the
+    `.ret` states reached through this path are covered by
+    `returned_call_removed` / `pending_exact` like all others). -/
+theorem compress_failure_removes_the_call (s s' : St) (hr : Reachable s) (c : Nat)
+    (hs : step s (.cCompressFail c) = some s') :
+    (s'.callers c).pc = .rm (.err .toobig) ∧ (s'.callers c).seq = (s.callers c).seq ∧
+    s'.pending (s.callers c).seq = some c ∧
+    (∀ a s'', step s' a = some s'' → (s''.callers c).pc = (s'.callers c).pc ∨ a = .cRm c) ∧
+    ∃ s'', step s' (.cRm c) = some s'' ∧ (s''.callers c).pc = .ret (.err .toobig) ∧
+      s''.pending (s.callers c).seq = none ∧ ∀ q, s''.pending q ≠ some c := by
+  have hr' : Reachable s' := Reachable.step s s' _ hr hs
+  have h0 : (s.callers c).pc = .enc ∧ (s'.callers c).pc = .rm (.err .toobig) ∧
+      (s'.callers c).seq = (s.callers c).seq ∧ s'.pending = s.pending := by
+    simp only [step] at hs
+    split at hs
+    · rename_i hpc
+      injection hs with hs; subst hs
+      simp [hpc, setCaller]
+    · simp at hs
+  obtain ⟨hpc, hpc', hseq, hpend⟩ := h0
+  refine ⟨hpc', hseq, ?_, ?_, ?_⟩
+  · rw [hpend]
+    exact (pending_exact s hr _ c).mpr ⟨rfl, by simp [hpc, inTable]⟩
+  · intro a s'' hs''
+    rw [hpc']
+    exact rm_only_cRm s' s'' a c _ hpc' hs''
+  · obtain ⟨s'', h1, h2, -, h4⟩ := cRm_eff s' c _ hpc'
+    refine ⟨s'', h1, h2, ?_, ?_⟩
+    · rw [← hseq]; exact h4
+    · exact returned_call_removed s'' (Reachable.step s' s'' _ hr' h1) c _ h2
+
 /-- the task table holds only handlers that were registered, under their own
     key, and — until the stop is initiated — have been started and not ended -/
 theorem tasks_exact (s : St) (hr : Reachable s) (q : Int) (h : Nat) (ht : s.tasks q = some h) :
